@@ -54,9 +54,13 @@ PROPS = {
     ),
     'C13': dict(
         title='generated descriptors and structs mirror the .proto exactly',
-        modules=['Pbc.Props.C13', 'Pbc.Props.C14'],
+        modules=['Pbc.Props.C13', 'Pbc.Props.C14', 'Pbc.Lemmas.Ranges'],
         theorems=['Pbc.Props.C13.fields_perm', 'Pbc.Props.C13.fields_sorted', 'Pbc.Props.C13.fields_strict',
                   'Pbc.Props.C13.sortByName_sorted', 'Pbc.Props.C13.nameLookup_sortByName', 'Pbc.Props.C13.field_by_name',
+                  'Pbc.Props.C13.field_by_number', 'Pbc.Props.C13.enumValues_strict', 'Pbc.Props.C13.enumValues_numbers',
+                  'Pbc.Props.C13.enum_by_number', 'Pbc.Props.C13.enum_by_number_none', 'Pbc.Props.C13.enum_first_name',
+                  'Pbc.Props.C13.indexOfValue_spec', 'Pbc.Props.C13.enum_by_name',
+                  'Pbc.Lemmas.Ranges.mkRanges_wf', 'Pbc.Lemmas.Ranges.rangeLookup_mkRanges',
                   'Pbc.Props.C14.rangeLookup_spec', 'Pbc.Props.C14.nameLookup_spec'],
         refine=[], cases=[], oracle='gen', gen=(24, 160),
     ),
@@ -192,10 +196,14 @@ PROPS = {
     ),
     'C14': dict(
         title='descriptor lookups find every key and reject every non-key',
-        modules=['Pbc.Props.C14'],
+        modules=['Pbc.Props.C14', 'Pbc.Props.C13', 'Pbc.Props.C20', 'Pbc.Lemmas.Ranges'],
         theorems=['Pbc.Props.C14.bsearch_sound', 'Pbc.Props.C14.bsearch_complete', 'Pbc.Props.C14.bsearch_none',
                   'Pbc.Props.C14.ranges_sorted', 'Pbc.Props.C14.rangeLookup_spec', 'Pbc.Props.C14.rangeLookup_none',
-                  'Pbc.Props.C14.cmpBytes_trans', 'Pbc.Props.C14.names_sorted_cmp', 'Pbc.Props.C14.nameLookup_spec'],
+                  'Pbc.Props.C14.cmpBytes_trans', 'Pbc.Props.C14.names_sorted_cmp', 'Pbc.Props.C14.nameLookup_spec',
+                  # ... over the tables the generator emits (generator model): every key, found iff declared
+                  'Pbc.Lemmas.Ranges.mkRanges_wf', 'Pbc.Lemmas.Ranges.rangeLookup_mkRanges', 'Pbc.Lemmas.Ranges.rangeLookup_mkRanges_none',
+                  'Pbc.Props.C13.field_by_number', 'Pbc.Props.C13.field_by_name', 'Pbc.Props.C13.enum_by_number',
+                  'Pbc.Props.C13.enum_by_number_none', 'Pbc.Props.C13.enum_by_name', 'Pbc.Props.C20.method_by_name'],
         refine=[],
         cases=[('lookup', 1500, 20000, []), ('leaf', 30, 200, [])], gen=(16, 96),
         oracle='c14',
